@@ -63,6 +63,9 @@ var histShapes = []hshape{
 	{Name: "file-named-twice", Tasks: []htask{{Name: "A", Lits: []string{"a.txt"}, Globs: []string{"*.txt"}, NCmd: 1}, {Name: "B", Globs: []string{"*.txt", "**/*.txt"}, NCmd: 1}}, Files: []string{"a.txt", "b.txt"}},
 	{Name: "names-differing-in-case", Tasks: []htask{{Name: "A", Lits: []string{"a.txt"}, NCmd: 1}, {Name: "a", Lits: []string{"a.txt"}, NCmd: 1}}, Files: []string{"a.txt"}},
 	{Name: "symlinked-dependency", Tasks: []htask{{Name: "A", Lits: []string{"l.txt"}, NCmd: 1}, {Name: "B", Globs: []string{"*.txt"}, NCmd: 1}}, Files: []string{"a.txt", "l.txt"}, Links: [][2]string{{"l.txt", "a.txt"}}},
+	{Name: "same-base-name", Tasks: []htask{{Name: "A", Globs: []string{"**/*.txt"}, NCmd: 1}, {Name: "B", Lits: []string{"sub/a.txt"}, NCmd: 1}}, Files: []string{"a.txt", "sub/a.txt"}},
+	{Name: "self-rewritten-dependency", Tasks: []htask{{Name: "A", Lits: []string{"m.txt"}, NCmd: 1, Copies: [][2]string{{"x.txt", "m.txt"}}}, {Name: "B", Lits: []string{"m.txt"}, Deps: []string{"A"}, NCmd: 1}}, Files: []string{"m.txt", "x.txt"}},
+	{Name: "default-task", Tasks: []htask{{Name: "build", Lits: []string{"a.txt"}, NCmd: 1}, {Name: "default", Lits: []string{"b.txt"}, Deps: []string{"build"}, NCmd: 1}}, Files: []string{"a.txt", "b.txt"}},
 	{Name: "generated-input", Tasks: []htask{{Name: "A", Lits: []string{"a.txt"}, NCmd: 1, Copies: [][2]string{{"a.txt", "g.txt"}}}, {Name: "B", Lits: []string{"g.txt"}, Deps: []string{"A"}, NCmd: 1}}, Files: []string{"a.txt", "g.txt"}},
 	{Name: "chain-of-three", Tasks: []htask{{Name: "A", Lits: []string{"a.txt"}, NCmd: 1}, {Name: "B", Lits: []string{"b.txt"}, Deps: []string{"A"}, NCmd: 1}, {Name: "C", Deps: []string{"B"}, NCmd: 1}}, Files: []string{"a.txt", "b.txt"}},
 }
@@ -128,12 +131,13 @@ type hstate struct {
 	Model    map[string]string `json:"model"`            // task -> snapshot of its last success ("" / missing = none)
 	LastFail map[string]string `json:"last_fail"`        // task -> set when it failed on the inputs of its last success (since that success)
 	Forced   map[string]string `json:"forced,omitempty"` // task -> set once it took part in a forced run (since the cache was last removed)
+	Modes    map[string]string `json:"modes,omitempty"`  // rel path -> "755" for files made executable (default 644)
 	Extra    map[string]string `json:"extra,omitempty"`  // any other file found in the project (e.g. further files in .spok): carried along
 	Other    string            `json:"other,omitempty"`  // the spokfile changed / not a regular file: never expected
 }
 
 func newState() hstate {
-	return hstate{Files: map[string]string{}, Model: map[string]string{}, LastFail: map[string]string{}, Forced: map[string]string{}, Extra: map[string]string{}}
+	return hstate{Files: map[string]string{}, Model: map[string]string{}, LastFail: map[string]string{}, Forced: map[string]string{}, Extra: map[string]string{}, Modes: map[string]string{}}
 }
 
 func (s hstate) clone() hstate {
@@ -152,6 +156,9 @@ func (s hstate) clone() hstate {
 	}
 	for k, v := range s.Extra {
 		n.Extra[k] = v
+	}
+	for k, v := range s.Modes {
+		n.Modes[k] = v
 	}
 	if s.Cache != nil {
 		c := *s.Cache
@@ -187,7 +194,7 @@ func (s hstate) key() string {
 	if s.Cache != nil {
 		c = *s.Cache
 	}
-	return "F{" + mapKey(s.Files) + "}C{" + c + "}M{" + mapKey(dropEmpty(s.Model)) + "}L{" + mapKey(dropEmpty(s.LastFail)) + "}X{" + mapKey(dropEmpty(s.Forced)) + "}E{" + mapKey(s.Extra) + "}O{" + s.Other + "}"
+	return "F{" + mapKey(s.Files) + "}C{" + c + "}M{" + mapKey(dropEmpty(s.Model)) + "}L{" + mapKey(dropEmpty(s.LastFail)) + "}X{" + mapKey(dropEmpty(s.Forced)) + "}E{" + mapKey(s.Extra) + "}P{" + mapKey(s.Modes) + "}O{" + s.Other + "}"
 }
 
 // diskKey identifies what is on disk only (for counting distinct disk states).
@@ -196,7 +203,7 @@ func (s hstate) diskKey() string {
 	if s.Cache != nil {
 		c = *s.Cache
 	}
-	return "F{" + mapKey(s.Files) + "}C{" + c + "}E{" + mapKey(s.Extra) + "}"
+	return "F{" + mapKey(s.Files) + "}C{" + c + "}E{" + mapKey(s.Extra) + "}P{" + mapKey(s.Modes) + "}"
 }
 
 type hop struct {
@@ -218,6 +225,8 @@ func (o hop) String() string {
 		return "rm -rf .spok"
 	case "rmcachefile":
 		return "rm .spok/cache.json"
+	case "chmod":
+		return "chmod (toggle +x) " + o.File
 	case "link":
 		return fmt.Sprintf("ln -sf %s %s", o.Value, o.File)
 	case "spokfile":
@@ -249,6 +258,9 @@ func (sb *sandbox) materialise(s hshape, st hstate) {
 			continue
 		}
 		_ = os.WriteFile(full, []byte(c), 0o644)
+		if st.Modes[p] == "755" {
+			_ = os.Chmod(full, 0o755)
+		}
 	}
 	for p, c := range st.Extra {
 		full := filepath.Join(sb.Proj, p)
@@ -271,6 +283,7 @@ func (sb *sandbox) materialise(s hshape, st hstate) {
 // readBack reads files and cache from the project directory into st.
 func (sb *sandbox) readBack(s hshape, st *hstate) {
 	st.Files = map[string]string{}
+	st.Modes = map[string]string{}
 	st.Extra = map[string]string{}
 	st.Cache = nil
 	st.Other = ""
@@ -301,6 +314,9 @@ func (sb *sandbox) readBack(s hshape, st *hstate) {
 		case info.Mode().IsRegular() && known[rel]:
 			b, _ := os.ReadFile(p)
 			st.Files[rel] = string(b)
+			if info.Mode().Perm()&0o100 != 0 {
+				st.Modes[rel] = "755"
+			}
 		case info.Mode().IsRegular():
 			// anything else spok (or a variant of it) leaves in the project is part of the state
 			b, _ := os.ReadFile(p)
@@ -386,6 +402,9 @@ func missingLiteral(t *htask, files map[string]string) bool {
 }
 
 func (s hshape) closure(req []string) []string {
+	if len(req) == 0 {
+		req = []string{"default"} // spok without task names runs the task named default
+	}
 	seen := map[string]bool{}
 	var order []string
 	var visit func(n string)
@@ -685,12 +704,22 @@ func judgeRun(s hshape, pre hstate, o hobs, st *hstate, strictC02 bool) hverdict
 // applyEdit applies a non-run operation to a state (no spok involved).
 func applyEdit(st *hstate, op hop) {
 	switch op.Kind {
-	case "write":
-		st.Files[op.File] = op.Value
 	case "delete":
 		delete(st.Files, op.File)
+		delete(st.Modes, op.File)
 	case "link":
 		st.Files[op.File] = "@->" + op.Value
+	case "chmod":
+		if _, ok := st.Files[op.File]; ok {
+			if st.Modes[op.File] == "755" {
+				delete(st.Modes, op.File)
+			} else {
+				st.Modes[op.File] = "755"
+			}
+		}
+	case "write":
+		st.Files[op.File] = op.Value
+		delete(st.Modes, op.File) // (re)written files are plain 644 files
 	case "rmcachefile":
 		// only the cache file goes, the directory stays: the cache has been removed all the same
 		if st.Cache != nil {
@@ -724,6 +753,9 @@ func editOps(s hshape, values []string) []hop {
 		ops = append(ops, hop{Kind: "delete", File: f})
 	}
 	ops = append(ops, hop{Kind: "rmcache"}, hop{Kind: "rmcachefile"})
+	if len(s.Files) > 0 && len(s.Tasks) <= 2 && len(s.Files) <= 2 {
+		ops = append(ops, hop{Kind: "chmod", File: s.Files[0]}) // permissions are not part of a task's inputs
+	}
 	for _, l := range s.Links {
 		ops = append(ops, hop{Kind: "link", File: l[0], Value: l[1]})
 	}
@@ -743,6 +775,9 @@ func runOps(s hshape, withFail bool) []hop {
 			}
 		}
 		for _, force := range []bool{false, true} {
+			if mask == 1 && s.task("default") != nil {
+				ops = append(ops, hop{Kind: "run", Force: force}) // no task names: the default task (CLI layer only)
+			}
 			ops = append(ops, hop{Kind: "run", Tasks: req, Force: force})
 			if withFail {
 				for _, name := range s.closure(req) {
